@@ -730,46 +730,49 @@ func (c *VCtx) fieldStoreBases(fr *Frame, li *loopInfo) map[string][]*Term {
 	return out
 }
 
+
+// freeVarWritten: may closure fn (or a closure it creates) assign to its idx-th captured variable?
+func freeVarWritten(fn *ssa.Function, idx int, depth int) bool {
+	if depth > 5 || idx >= len(fn.FreeVars) {
+		return true
+	}
+	fv := fn.FreeVars[idx]
+	for _, r := range *fv.Referrers() {
+		switch x := r.(type) {
+		case *ssa.Store:
+			if x.Addr == fv {
+				return true
+			}
+			if x.Val == fv {
+				return true
+			}
+		case *ssa.MakeClosure:
+			for j, b := range x.Bindings {
+				if b == fv && freeVarWritten(x.Fn.(*ssa.Function), j, depth+1) {
+					return true
+				}
+			}
+		case *ssa.UnOp, *ssa.DebugRef:
+		case ssa.CallInstruction:
+			for _, a := range x.Common().Args {
+				if a == fv {
+					return true
+				}
+			}
+		default:
+			return true
+		}
+	}
+	return false
+}
+
 // loopCellTargets lists the pre-existing local cells (captured variables, locals whose address is taken)
 // that the loop may write: by a store in the loop body or by any closure that writes its captured copy.
 // ok=false: some store goes through a pointer the analysis cannot name.
 func (c *VCtx) loopCellTargets(fr *Frame, li *loopInfo) ([]*Loc, bool) {
 	var out []*Loc
 	ok := true
-	var fvWritten func(fn *ssa.Function, idx int, depth int) bool
-	fvWritten = func(fn *ssa.Function, idx int, depth int) bool {
-		if depth > 5 || idx >= len(fn.FreeVars) {
-			return true
-		}
-		fv := fn.FreeVars[idx]
-		for _, r := range *fv.Referrers() {
-			switch x := r.(type) {
-			case *ssa.Store:
-				if x.Addr == fv {
-					return true
-				}
-				if x.Val == fv {
-					return true
-				}
-			case *ssa.MakeClosure:
-				for j, b := range x.Bindings {
-					if b == fv && fvWritten(x.Fn.(*ssa.Function), j, depth+1) {
-						return true
-					}
-				}
-			case *ssa.UnOp, *ssa.DebugRef:
-			case ssa.CallInstruction:
-				for _, a := range x.Common().Args {
-					if a == fv {
-						return true
-					}
-				}
-			default:
-				return true
-			}
-		}
-		return false
-	}
+	fvWritten := freeVarWritten
 	written := func(v ssa.Value) bool {
 		refs := v.Referrers()
 		if refs == nil {
